@@ -96,11 +96,6 @@ func (frame *Frame) prepareAvcHeader(sps, pps []byte) {
 		}
 	}
 
-	// 7-9, ignore, @see: ngx_rtmp_hls_video
-	if nalUnitType >= h264.NalSps && nalUnitType <= h264.NalAud {
-		return
-	}
-
 	// step 2:
 	// output the "real" sample, in buf.
 	// when we output some special assist packets according to nal_unit_type
